@@ -9,6 +9,7 @@ use std::panic::{catch_unwind, AssertUnwindSafe};
 mod ops_data;
 mod ops_acc;
 mod ops_adv;
+mod ops_blind;
 mod ops_create;
 mod ops_flow;
 mod ops_issue;
@@ -23,6 +24,7 @@ fn dispatch(v: &Value) -> Value {
         o if o.starts_with("d_") => ops_data::run(o, v),
         "f_pok" | "f_sigv" => ops_pok::run(op, v),
         "f_issue" | "f_schema_new" => ops_issue::run(op, v),
+        "f_blind" => ops_blind::run(op, v),
         "f_create" => ops_create::run(op, v),
         "f_pres" => ops_adv::run(op, v),
         "f_acc" => ops_acc::run(op, v),
